@@ -55,12 +55,12 @@ def limRead (w : W) (space : Nat) : W × Except RErr Bytes :=
         if trip then ({ w1 with cur := cur', tripped := true }, .error .tooLong)
         else ({ w1 with cur := cur' }, .ok bs)
 
-/-- `lineLimitReader.resume(limit, pending)` with `pending` = what bufio holds unread (`Conn.resumeLineLimit`): the limit is put
-    back after a BDAT chunk, the counter restarts and the buffered beginning of the next command lines is counted. -/
-def resume (w : W) (limit : Nat) : W :=
+/-- `lineLimitReader.resume(limit, pending)`: the limit is put back after a BDAT chunk, the counter restarts and `pending` — the
+    buffered beginning of the next command lines, see `Server.cutAtBdat` — is counted. -/
+def resume (w : W) (limit : Nat) (pending : Bytes) : W :=
   if limit == 0 then { w with limit := 0, cur := 0 }
   else
-    let (cur', trip) := countLoop limit 0 w.buf
+    let (cur', trip) := countLoop limit 0 pending
     { w with limit := limit, cur := cur', tripped := w.tripped || trip }
 
 /-- `bufio.Reader.fill` (one source read into the free space; latches an error) -/
